@@ -766,7 +766,7 @@ func verifC12Sys(id string, seed int64) *verifSys {
 			}
 		}
 		if m.Calls > 0 {
-			evs = append(evs, verifEv{K: "start"}, verifEv{K: "answer"}, verifEv{K: "abort"})
+			evs = append(evs, verifEv{K: "start"}, verifEv{K: "answer"}, verifEv{K: "abort"}, verifEv{K: "start-refused"})
 			if !m.Ended {
 				evs = append(evs, verifEv{K: "end"})
 			}
@@ -827,6 +827,15 @@ func verifC12Sys(id string, seed int64) *verifSys {
 					return []verifFinding{{"C12:honest-run-after-unexpected-start-fails", fmt.Sprintf("StartAuthenticate (victim in some SMP state after %d foreign message(s)) began a run that the peer answered with the same secret; events peer=%v victim=%v", nm-m.Msgs, evs[0], evs[1])}}
 				}
 				return nil
+			}
+		case "start-refused":
+			// a call the library turns down (question too long for a TLV) must leave the state machine where it was
+			m.Calls--
+			V.C.smp.ensureSMP()
+			before := fmt.Sprintf("%T", V.C.smp.state)
+			r = V.StartSMP(strings.Repeat("q", 70000), []byte("x"))
+			if after := fmt.Sprintf("%T", V.C.smp.state); r.Err != "" && len(r.Out) == 0 && after != before {
+				return []verifFinding{{"C12:refused-call-moved-the-state-machine", fmt.Sprintf("StartAuthenticate was refused (%s) and sent nothing, but moved the SMP state from %s to %s", r.Err, before, after)}}
 			}
 		case "answer":
 			m.Calls--
@@ -914,7 +923,7 @@ func init() {
 			return nil
 		},
 		Run: func(r *verifReport) {
-			r.Rule = "victim in every SMP state in both roles (expect1 with/without question, waiting for the secret, expect2, expect3, expect4, never ran SMP), v2 and v3; deviations delivered correctly authenticated through a clone of its peer: every MPI field of the genuine next message replaced by {0,1,2,p-2,p-1,p,p+1,q,q±1,honest±1,honest+p,2^2000}, MPI counts n-1,n+1,0,2^31,2^32-1, dropped/extra MPI, length prefixes beyond the TLV, truncations, question variants, duplicates, aborts before/after, and every message that is genuine for another state (out of sequence); a malicious prover who recomputes the proofs over degenerate elements (unit elements with forged SMP3 / SMP4, g2a=0, g2a=p-1, and every combination of Pb, Qb in SMP2 and of Pa, Qa, Ra in SMP3 taken from {0, p, 2p, 1}); and an explicit-state exploration of all sequences of ≤ 2-3 foreign SMP messages and user calls (start, answer, abort, End). Oracle: no panic, never success, and afterwards (abort, then a fresh honest run with equal secrets initiated by either side) success on both sides"
+			r.Rule = "victim in every SMP state in both roles (expect1 with/without question, waiting for the secret, expect2, expect3, expect4, never ran SMP), v2 and v3; deviations delivered correctly authenticated through a clone of its peer: every MPI field of the genuine next message replaced by {0,1,2,p-2,p-1,p,p+1,q,q±1,honest±1,honest+p,2^2000}, MPI counts n-1,n+1,0,2^31,2^32-1, dropped/extra MPI, length prefixes beyond the TLV, truncations, question variants, duplicates, aborts before/after, and every message that is genuine for another state (out of sequence); a malicious prover who recomputes the proofs over degenerate elements (unit elements with forged SMP3 / SMP4, g2a=0, g2a=p-1, and every combination of Pb, Qb in SMP2 and of Pa, Qa, Ra in SMP3 taken from {0, p, 2p, 1}); and an explicit-state exploration of all sequences of ≤ 2-3 foreign SMP messages and user calls (start, a start the library refuses, answer, abort, End). Oracle: no panic, never success, and afterwards (abort, then a fresh honest run with equal secrets initiated by either side) success on both sides"
 			r.Assumptions = []string{"authenticated payloads are produced with the honest peer's session keys (the attacker is the authenticated peer itself)", "recovery is probed once per distinct world state"}
 			x := &c12Runner{recovered: map[[16]byte]string{}}
 			type job struct {
